@@ -1460,7 +1460,7 @@ macro_rules! lx_datalines_direct_harness {
                 kani::cover!(is_dl && found_any(&t, j), "terminated block");
                 kani::cover!(is_dl && prev == 0);
                 kani::cover!($k < 8 || (is_dl && pi == t.n && t.ch[t.n - 1] == ';' && t.n >= j + 3), "data then terminator");
-                kani::cover!(is_dl && pi == t.n && t.ch[t.n - 1] != ';', "unterminated block");
+                kani::cover!($k < 2 || (is_dl && pi == t.n && t.ch[t.n - 1] != ';'), "unterminated block");
                 kani::cover!(!is_dl && prev == 1);
                 std::mem::forget(lx);
             }
@@ -1850,11 +1850,11 @@ pub(crate) fn setup_after_cards<'a, const K: usize, const B: usize>(t: &'a Txt<K
 }
 
 macro_rules! lx_datalines_pfx_harness {
-    ($k:literal, $b:literal, $uw:literal, $name:ident) => {
+    ($k:literal, $b:literal, $uw:literal, $name:ident, $gen:ident) => {
         lx_harness! {
             #[kani::unwind($uw)]
             fn $name() {
-                let t = Txt::<$k, $b>::any_after_cards();
+                let t = Txt::<$k, $b>::$gen();
                 let mut lx = setup_after_cards(&t);
                 let prev: u8 = kani::any();
                 kani::assume(prev < 3);
@@ -1868,7 +1868,10 @@ macro_rules! lx_datalines_pfx_harness {
                 }
                 let pre = snapshot(&lx, &t);
                 let r = lx.lex_datalines(false);
-                let pi = check_common(&lx, &t, &pre);
+                // the start token begins at the keyword, inside the constant prefix: it is checked below, the
+                // common checker looks at the tokens after it
+                let pre_c = Pre { tok_n: pre.tok_n + r as usize, ..pre };
+                let pi = check_common(&lx, &t, &pre_c);
                 // reference: blanks then ';' right after the keyword, at statement start
                 let mut j = 0;
                 let mut i = 0;
@@ -1879,7 +1882,7 @@ macro_rules! lx_datalines_pfx_harness {
                     i += 1;
                 }
                 let is_dl = prev != 2 && j < t.n && t.ch[j] == ';';
-                assert!(r == is_dl, "C11/C15: a datalines block starts with its keyword at statement start, followed by blanks and ';'");
+                assert!(r == is_dl, "C11/C15/C17: a datalines block starts with its keyword at statement start (nothing, or a ';', before it - wherever in the text that is), followed by blanks and ';'");
                 if !is_dl {
                     assert!(pi == 0 && shadow::tok_n() == pre.tok_n && lx.errors.len() == pre.err_n, "C11: otherwise nothing is consumed or emitted");
                 } else {
@@ -1887,7 +1890,7 @@ macro_rules! lx_datalines_pfx_harness {
                     let (a, b, c) = (shadow::tok(pre.tok_n), shadow::tok(pre.tok_n + 1), shadow::tok(pre.tok_n + 2));
                     assert!(a.token_type == TokenType::DatalinesStart && b.token_type == TokenType::DatalinesData && c.token_type == TokenType::SEMI, "C10: start, data, terminator");
                     assert!(a.channel == TokenChannel::DEFAULT && b.channel == TokenChannel::DEFAULT && c.channel == TokenChannel::DEFAULT, "C06: on the default channel");
-                    assert!(a.byte_offset.get() == 3 && a.start.get() == 2 && t.idx_of(b.byte_offset.get() as usize) == Some(j + 1), "C06/C11/C02: the start token runs from the keyword through the statement's ';'");
+                    assert!(a.byte_offset.get() == 3 && a.start.get() == 2 && super::buffer::verif::line_idx_get(a.line) == 1 && t.idx_of(b.byte_offset.get() as usize) == Some(j + 1), "C06/C11/C02: the start token runs from the keyword through the statement's ';'");
                     let mut end = t.n;
                     let mut found = false;
                     let mut i = 0;
@@ -1906,16 +1909,16 @@ macro_rules! lx_datalines_pfx_harness {
                     }
                 }
                 assert!(lx.mode_stack.len() == pre.stack_len && lx.checkpoint.is_none());
-                kani::cover!(is_dl && j > 0 && t.ch[0] == '\u{a0}', "Unicode blank between keyword and ';'");
+                kani::cover!($k < 2 || (is_dl && j > 0 && (t.ch[0] == '\u{a0}' || t.ch[0] == '\u{b}')), "non-ASCII-whitespace blank between keyword and ';'");
                 kani::cover!(is_dl && prev == 0);
                 kani::cover!($k < 3 || (is_dl && pi == t.n && t.ch[t.n - 1] == ';' && t.n >= j + 3), "data then terminator");
-                kani::cover!(is_dl && pi == t.n && t.ch[t.n - 1] != ';', "unterminated block");
+                kani::cover!($k < 2 || (is_dl && pi == t.n && t.ch[t.n - 1] != ';'), "unterminated block");
                 kani::cover!(!is_dl && prev == 1);
                 std::mem::forget(lx);
             }
         }
     };
 }
-lx_datalines_pfx_harness!(2, 20, 6, lx_datalines_pfx_k2);
-lx_datalines_pfx_harness!(3, 24, 6, lx_datalines_pfx_k3);
-lx_datalines_pfx_harness!(4, 28, 6, lx_datalines_pfx_k4);
+lx_datalines_pfx_harness!(3, 24, 6, lx_datalines_pfx_k3, any_after_cards);
+// exactly n ASCII followers: all byte positions constant
+lx_datalines_pfx_harness!(1, 12, 6, lx_datalines_ascii_n1, ascii_after_cards);
